@@ -319,13 +319,14 @@ class SoftwareSwitchBase (object):
     """
     self.log.debug("Packet out details: %s", packet_out.show())
 
-    if packet_out.data:
-      self._process_actions_for_packet(packet_out.actions, packet_out.data,
-                                       packet_out.in_port, packet_out)
-    elif packet_out.buffer_id is not None:
+    if packet_out.buffer_id is not None:
+      # (Any data is only meaningful without a buffer id)
       self._process_actions_for_packet_from_buffer(packet_out.actions,
                                                    packet_out.buffer_id,
                                                    packet_out)
+    elif packet_out.data:
+      self._process_actions_for_packet(packet_out.actions, packet_out.data,
+                                       packet_out.in_port, packet_out)
     else:
       self.log.warn("packet_out: No data and no buffer_id -- "
                     "don't know what to send")
